@@ -22,7 +22,7 @@ RULE = ("(i) synthetic registries (as for C14) pushed into the global lists in r
         "Non-trivial = the model's run executes at least one case; distinct by input line.")
 ASSUMPTIONS = [
     "the linker/.init_array constructor mechanism and syn parsing are exercised end-to-end by the real crates, not modelled: C12 is partial at proof level",
-    "theorems relating tree and flat semantics carry the guard `no_name_clash` (no generic function shares its name with a sibling module that holds benchmarks): without it the property fails in divan (finding F7)",
+    "theorems relating tree and flat semantics carry the guard `no_name_clash` (no generic function shares its name with a sibling module that holds benchmarks): without it the property fails in divan (finding F8)",
     "as for C14: filter = predicate on the display path, sort = any sibling permutation, no `threads` option",
 ]
 TRUSTED = [
@@ -177,9 +177,9 @@ def streams(tier, rng):
     if clash_known():
         cp = clash_programs()
         cl = clash[: (400 if big else 60)] + [p.line("TRK", exe_path(p), ign="n") for p in cp]
-        out.append(Stream("name-clash (known finding F7)", "c12", cl, nontrivial=nt, impl_runner=build_then_run(cp), impl_timeout=900))
+        out.append(Stream("name-clash (known finding F8)", "c12", cl, nontrivial=nt, impl_runner=build_then_run(cp), impl_timeout=900))
     else:
-        # correspondence only: model and code agree on what happens under a name clash (the property itself fails: finding F7)
+        # correspondence only: model and code agree on what happens under a name clash (the property itself fails: finding F8)
         out.append(Stream("name-clash-correspondence", "c12", clash[: (400 if big else 60)], nontrivial=nt, sb=False))
     return out
 
@@ -189,3 +189,22 @@ def shrink(item, rerun):
         return item
     from props import c14
     return c14.shrink(item, rerun)
+
+MANIFEST = {
+    "text": "PARTIAL at proof level (the linker/.init_array constructor mechanism and syn parsing are exercised end to end, not modelled). "
+            "Coq theorems for all registries: the leaves of the built tree are the registered entries, each exactly once under the raw "
+            "path its module path spells (C12_tree_complete); sibling modules are merged into a trie (C12_modules_merged); the groups "
+            "above every leaf are determined by the leaf's raw path alone, the slot at prefix P holding the last registered group with "
+            "key P, and group insertion changes nothing else (C12_groups_attach); hence what runs is, as a multiset, what the entries say "
+            "one by one (C12_registered_cases), every case exactly once under --include-ignored (C12_all_run_once), independently of "
+            "registration order when group keys are distinct (C12_order_independent); macro level: nothing for exclusively empty lists, one "
+            "entry per function, exactly the types x consts product for generic ones, external consts 1..20 (C12_expand_*). Without the "
+            "key guard the property fails in divan: C12_name_clash_refuted (finding F8). Correspondence: synthetic registries in random "
+            "constructor orders and generated crates using the real attribute macros (registry dump, terse listing, --test log, --list).",
+    "note": "The specification evaluated on the implementation is the tree-free 'flat' semantics (every entry at its module path, bench_group "
+            "modules contributing name and options); its equality with the proved keyed semantics under the no-name-clash guard is checked "
+            "by the correspondence streams, not proved. Known finding F8 (module and generic fn of the same name share a tree node) is kept "
+            "in a separate stream matched by known_findings.txt. Trusted: rustc's module_path!/line!/column!/type_name, the crate generator.",
+    "technique": "machine-checked proof in Coq (trie invariant, chains by raw path, commuting slot updates) + whole-program differential "
+                 "correspondence incl. generated macro crates compiled offline against the checked tree",
+}
